@@ -95,6 +95,10 @@ SymAt(S, p) == S.seq[p - S.start + 1]
 SubSeqPos(S, lo, hi) == [k \in 1..(hi - lo + 1) |-> SymAt(S, lo + k - 1)]
 
 Dom_LocsInSeq(S)    == AnnBases(S.ann) \subseteq PosSet(S)
+\* features may begin upstream of a non-empty sequence but end inside it; only slicing, copying, reading
+\* a symbol and deleting a feature are driven on such objects (an omitted start is "no bound on the left":
+\* the upstream bases stay and no MISS_LEFT is set, exactly as Annotation[:b] does)
+Dom_LeftOverhang(S) == Len(S.seq) >= 1 /\ \A p \in AnnBases(S.ann) : p < SeqEnd(S)
 Dom_FeatInSeq(S, f) == FeatBases(f) \subseteq PosSet(S)
 \* "all slices ... within the sequence": given bounds lie in start..end and are ordered
 Dom_SliceInSeq(S, a, b) ==
